@@ -20,6 +20,16 @@ FORMAL_BASE = {
 LIB_FORMAL_BASE = {"picos.partial_trace": ("subsystems", 1, B0), "picos.partial_transpose": ("subsystems", 1, B0)}
 
 
+def _shift(b, k):
+    if b is None or not isinstance(b, str) or not b.startswith("Base") or b == "mixed":
+        return None
+    try:
+        n = int(b[4:])
+    except ValueError:
+        return None
+    return f"Base{n + k}"
+
+
 def _join(bs):
     bs = [b for b in bs if b is not None]
     if not bs:
@@ -100,15 +110,7 @@ class BaseEval:
                 if len(rest) == 1 and len(consts) == 1:
                     b = self._b(rest[0], at)
                     k = consts[0][1]
-                    if b == B1 and k == -1:
-                        return B0
-                    if b == B0 and k == 1:
-                        return B1
-                    if b == B0 and k == -1:
-                        return "Base-1"
-                    if b == B1 and k == 1:
-                        return "Base2"
-                    return None
+                    return _shift(b, k)
                 return None
             if h in ("list", "tuple"):
                 return _join([self._b(x, at) for x in t[1:]]) if len(t) > 1 else None
@@ -121,6 +123,8 @@ class BaseEval:
                     return B0
                 if t[1] == "numpy.argsort":
                     return B0
+                if t[1] in ("itertools.permutations", "itertools.combinations", "itertools.product") and t[2]:
+                    return self._b(t[2][0], at)
                 return None
             if h == "comp":
                 # [f(x) for x in seq]: base of f(x) with x carrying the element base of seq
@@ -154,16 +158,7 @@ class BaseEval:
                 consts = [x for x in t[1] if x[0] == "c" and isinstance(x[1], int)]
                 rest = [x for x in t[1] if x not in consts]
                 if len(rest) == 1 and len(consts) == 1:
-                    b = rec(rest[0])
-                    k = consts[0][1]
-                    if b == B1 and k == -1:
-                        return B0
-                    if b == B0 and k == 1:
-                        return B1
-                    if b == B0 and k == -1:
-                        return "Base-1"
-                    if b == B1 and k == 1:
-                        return "Base2"
+                    return _shift(rec(rest[0]), consts[0][1])
                 return None
             if t[0] == "call" and t[1] in ("numpy.array", "numpy.asarray", "builtins.list") and t[2]:
                 return rec(t[2][0])
